@@ -1053,16 +1053,22 @@ THOROUGH = {"lle": 240, "ltsa": 180, "hlle_flat": 120, "hlle_oracle": 12, "malfo
 SEARCH = {"lle": 120, "ltsa": 80, "hlle_flat": 60, "hlle_oracle": 10, "malformed": 0, "emb": 40, "f7": 0, "small_k": 4}
 
 
+GEN_FILES = (("t_hlle", "HlleLoop.v"), ("t_eig", "EigSelect.v"))
+
+
 def translate(ctx, self_test=False):
-    """T-hlle (mine) and T-eig (C05's): regenerate the tables the theorems are stated over from the current tree"""
+    """T-hlle (mine) and T-eig (C05's): regenerate the tables the theorems are stated over from the current tree.
+    Returns {file: text} of what THIS tree generates."""
     import importlib
     import os
     import sys
     sys.path.insert(0, os.path.join(ctx.verif, "translate"))
-    for mod, out in (("t_hlle", "HlleLoop.v"), ("t_eig", "EigSelect.v")):
+    texts = {}
+    for mod, out in GEN_FILES:
         try:
             t = importlib.import_module(mod)
             text = t.emit(t.parse(ctx.repo))
+            texts[out] = text
             changed = t.write_if_changed(os.path.join(ctx.verif, "coq", "gen", out), text)
             ctx.note("%s: table %s" % (mod, "rewritten" if changed else "unchanged"))
             if self_test and mod == "t_hlle":
@@ -1074,16 +1080,43 @@ def translate(ctx, self_test=False):
         except Exception as ex:      # TranslateError of either module
             ctx.unshown("translator %s: the source is no longer understood (%s): %s"
                         % (mod, type(ex).__name__, str(ex)[:300]))
+    return texts
+
+
+def coq_with_tables(ctx, self_test):
+    """regenerate the tables, then check the proofs.  coq/gen is shared with other checks that may run at the same
+    time against ANOTHER tree (VERIF_REPO) and overwrite the tables between our write and our make: if the proofs
+    fail and a table on disk is not the one this tree generates, it was a race, not a verdict: write again, retry."""
+    import os
+    res = None
+    for attempt in range(4):
+        texts = translate(ctx, self_test=self_test and attempt == 0)
+        before = list(ctx._unshown)
+        res = ctx.coq()
+        if res.ok:
+            return res
+        raced = False
+        for out, text in texts.items():
+            try:
+                if open(os.path.join(ctx.verif, "coq", "gen", out)).read() != text:
+                    raced = True
+            except OSError:
+                raced = True
+        if not raced and "inconsistent assumptions" not in res.log:
+            return res
+        ctx._unshown[:] = before          # forget the verdict of the raced attempt
+        ctx.note("tables under coq/gen were overwritten by a concurrent check; proofs re-checked (attempt %d)"
+                 % (attempt + 2))
+    return res
 
 
 def run(ctx):
     rng = ctx.rng
-    translate(ctx, self_test=not ctx.quick)
     # the C++ build (one process, ~45 s) runs while Coq checks the proofs and the model is extracted
     import concurrent.futures
     with concurrent.futures.ThreadPoolExecutor(max_workers=1) as pool:
         fut = pool.submit(ctx.cpp, "harness/c08.cpp", extra=CXX_EXTRA)
-        ctx.coq()
+        coq_with_tables(ctx, self_test=not ctx.quick)
         mexe = ctx.extract()
         exe = fut.result()
     stats = Stats()
